@@ -20,25 +20,31 @@ const (
 
 // Tok is one token of the rendered program.
 type Tok struct {
-	Text   string
-	Kind   TokKind
-	Glue   bool // must touch the next token
-	LB     bool // the grammar has `linebreak` after this token
-	CmdPos bool // word in command-name position of a simple command
-	Depth  int  // compound nesting depth of the token (0 = top level)
-	Final  bool // the newline that ends the complete command
-	HDPend bool // a here-document body is pending after this token: the next newline must be the newline token
+	Text     string
+	Kind     TokKind
+	Glue     bool // must touch the next token
+	LB       bool // the grammar has `linebreak` after this token
+	CmdPos   bool // word in command-name position of a simple command
+	CmdStart bool // first token of a pipeline or command: a position where an alias name could stand
+	Depth    int  // compound nesting depth of the token (0 = top level)
+	Final    bool // the newline that ends the complete command
+	HDPend   bool // a here-document body is pending after this token: the next newline must be the newline token
 	// filled by Join
 	Off, Line, Col int // byte offset, 1-based line and rune column
 }
 
 type tokenizer struct {
-	toks    []Tok
-	depth   int
-	pending [][]*Heredoc
+	cmdStart bool
+	toks     []Tok
+	depth    int
+	pending  [][]*Heredoc
 }
 
 func (t *tokenizer) emit(k Tok) {
+	if t.cmdStart {
+		k.CmdStart = true
+		t.cmdStart = false
+	}
 	k.Depth = t.depth
 	k.HDPend = len(t.pending[len(t.pending)-1]) > 0
 	t.toks = append(t.toks, k)
@@ -116,6 +122,7 @@ func (t *tokenizer) clist(cl *CList) {
 }
 
 func (t *tokenizer) pipeline(p *Pipeline) {
+	t.cmdStart = true
 	if p.Bang {
 		t.emit(Tok{Text: "!", Kind: TRes})
 	}
@@ -152,6 +159,9 @@ func (t *tokenizer) body(cl *CList) {
 }
 
 func (t *tokenizer) cmd(c *Cmd) {
+	if n := len(t.toks); n == 0 || t.toks[n-1].Text != "!" || t.toks[n-1].Kind != TRes {
+		t.cmdStart = true
+	}
 	switch c.K {
 	case "simple":
 		for _, it := range c.Pre {
